@@ -95,20 +95,10 @@ func cloneValue(src interface{}, dst interface{}) {
 		}
 
 	case reflect.Struct:
-		srcType := srcVal.Type()
 		// we deep copy structure
 		// warning: unexported pointers are copied here
 		dstVal.Elem().Set(srcVal)
-		for i := 0; i < srcVal.NumField(); i++ {
-			structField := srcType.Field(i)
-			srcField := srcVal.Field(i)
-			dstField := dstVal.Elem().Field(i)
-			if structField.IsExported() {
-				// we set to zero exported fields in order to deep copy them
-				dstField.Set(reflect.Zero(srcField.Type()))
-				cloneValue(srcField.Interface(), dstField.Addr().Interface())
-			}
-		}
+		cloneFields(srcVal, dstVal.Elem())
 
 	default:
 		dst := dstVal.Elem()
@@ -116,6 +106,27 @@ func cloneValue(src interface{}, dst interface{}) {
 			dst.Set(reflect.Zero(srcVal.Type()))
 		}
 		dstVal.Elem().Set(srcVal)
+	}
+}
+
+// cloneFields deep clones the exported fields of structure src into
+// structure dst, which must be a copy of src
+func cloneFields(src, dst reflect.Value) {
+	srcType := src.Type()
+	for i := 0; i < src.NumField(); i++ {
+		structField := srcType.Field(i)
+		srcField := src.Field(i)
+		dstField := dst.Field(i)
+		switch {
+		case structField.IsExported():
+			// we set to zero exported fields in order to deep copy them
+			dstField.Set(reflect.Zero(srcField.Type()))
+			cloneValue(srcField.Interface(), dstField.Addr().Interface())
+		case structField.Anonymous && srcField.Kind() == reflect.Struct:
+			// the exported fields of an embedded structure are promoted
+			// (and serialized) even though its type is not exported
+			cloneFields(srcField, dstField)
+		}
 	}
 }
 
